@@ -127,8 +127,7 @@ func checkCase(c Case) (Outcome, error) {
 		return out, fmt.Errorf("harness: %v", err)
 	}
 	differ := gm.Differ(c.Dialect)
-	empty := schema.New(Marker)
-	schema.NewRealm(empty)
+	empty := gm.Empty(c.Dialect, base)
 	var changes []schema.Change
 	switch c.Scenario {
 	case "create":
